@@ -89,14 +89,14 @@ def replay_conv(job):
     st, failure, det = "ok", None, None
     accepted_any = False
     for x in xs:
-        xv = np.array(x, dtype=float) if isinstance(x, list) else float(x)
+        xv = A.mag_float(x)
         if rule == "reject":
             r1 = A.conv_value(x, ua, ub); r2 = A.conv_to(x, ua, ub); nobs += 2
             if r1[0] == "val" or r2[0] == "val":
                 accepted_any = True
                 return ("violation", "accepted_mismatch",
                         {"expected": "an exception", "observed": {"value()": r1[:2], "to()": r2[:2]}, "x": x,
-                         "clause": "different dimensions (neither equal nor exactly reciprocal) => refused with an error"}, nobs)
+                         "clause": "different dimensions (neither equal nor exactly reciprocal) => refused with an error, whatever the magnitude"}, nobs)
             if not r1[2] or not r2[2]:
                 return ("violation", "changed_by_refusal",
                         {"expected": "quantity unchanged", "observed": {"value() unchanged": r1[2], "to() unchanged": r2[2]}, "x": x,
@@ -110,10 +110,13 @@ def replay_conv(job):
         r1 = A.conv_value(x, ua, ub); r2 = A.conv_to(x, ua, ub); nobs += 2
         if r1[0] != "val" or r2[0] != "val":
             return ("violation", "refused_valid", {"expected": np.asarray(exp).tolist(), "observed": {"value()": r1[:2], "to()": r2[:2]}, "x": x,
-                                                   "clause": f"{rule}: the conversion is performed"}, nobs)
+                                                   "clause": f"{rule}: the conversion is performed (magnitude kind {A.mag_kind(x)}, after conversions of other kinds to the same target)"}, nobs)
         if not A.close(r1[1], exp, REL) or not A.close(r2[1], exp, REL):
             return ("violation", "wrong_value", {"expected": np.asarray(exp).tolist(), "observed": {"value()": r1[1], "to()": r2[1]}, "x": x,
                                                  "clause": f"{rule}: value = " + ("x*F(a)/F(b)" if rule != "inverse" else "1/(x*F(a))/F(b)") + " (rel 1e-9)"}, nobs)
+        if r1[3] != A.mag_kind(x) or r2[4] != A.mag_kind(x):
+            return ("violation", "result_kind", {"expected": A.mag_kind(x), "observed": {"value()": r1[3], "to()": r2[4]}, "x": x,
+                                                 "clause": "a float converts to a float, an array element-wise to an array, a Decimal to a Decimal - whatever was converted before"}, nobs)
         if not r1[2]:
             return ("violation", "value_mutates", {"expected": "value() does not alter the quantity", "observed": "changed", "x": x,
                                                    "clause": "value(unit) is out-of-place"}, nobs)
@@ -124,8 +127,8 @@ def replay_conv(job):
         if ua is not None and rule != "nounit_rad":
             from scinumtools.units import Quantity
             try:
-                q = Quantity(x if not isinstance(x, list) else list(x), ua)
-                back = np.array(q.to(ub).to(ua).magnitude.value, dtype=float); nobs += 1
+                q = Quantity(A.mag_in(x), ua)
+                back = np.array(A.as_float(q.to(ub).to(ua).magnitude.value), dtype=float); nobs += 1
                 if not A.close(back, xv, REL):
                     return ("violation", "round_trip", {"expected": x, "observed": back.tolist(), "x": x, "clause": "converting back returns x (rel 1e-9)"}, nobs)
             except Exception as e:
@@ -244,11 +247,19 @@ def run(replay=None):
 
     # 4. replay
     jobs = []
+    zeros = [float(A.ev(t, tabs)) for t in header[0]["zeros"]]
+    zarr = [float(A.ev(t, tabs)) for t in header[0]["zeroarray"]]
+    decs = [{"dec": "1"}, {"dec": "-3"}, {"dec": "2.5e-7"}] if "decimal" in header[0]["kinds"] else []
     def xs_for(rec, full):
         if rec["rule"] == "reject":
-            return [rnd.choice(mags[1:4])] if not full else [mags[1], arr]
+            # a refusal does not depend on the magnitude: a non-zero value, zero, negative zero, an all-zero array
+            return [rnd.choice(mags[1:4])] + zeros + [zarr] + ([arr] if full else [])
         if rec["rule"] in C04_RULES:
-            return (mags + [arr]) if full else [rnd.choice(mags), rnd.choice(mags[1:4]), arr]
+            # all magnitude kinds through the same target in a seeded order, then float and array once more:
+            # the result of a conversion must not depend on the kinds converted before (history)
+            seq = (mags + [arr] + decs) if full else [rnd.choice(mags), rnd.choice(mags[1:4]), arr, rnd.choice(decs)]
+            seq = list(seq); rnd.shuffle(seq)
+            return seq + [mags[1], arr]
         return []
     for rec in table:
         jobs.append((dict(rec, _src="table"), xs_for(rec, True if rec["rule"] != "reject" else tier != "quick")))
